@@ -153,7 +153,53 @@ class Body:
                     if t.get('target') is not None:
                         out.append((t['target'], None))
                 self._succ.append(out)
+            self._thread_jumps()
         return self._succ[bb]
+
+    def _thread_jumps(self):
+        """Jump threading for materialised booleans (`matches!`, `a && b` used as a value): a block that assigns a
+        constant bool to a local and jumps (through empty blocks) to a statement-free switch on that local continues
+        directly at the matching target. Only infeasible paths are removed."""
+        def pure_switch(b):
+            blk = self.blocks[b]
+            t = blk['term']
+            if blk['stmts'] or not t or t['k'] != 'switch' or t.get('dty') != 'bool':
+                return None
+            d = t['discr']
+            if 'place' not in d or d['place']['p']:
+                return None
+            return d['place']['l']
+        for P in range(self.nb):
+            blk = self.blocks[P]
+            t = blk['term']
+            if not t or t['k'] != 'goto':
+                continue
+            S = t['target']
+            hops = 0
+            while hops < 4 and not self.blocks[S]['stmts'] and self.blocks[S]['term'] and self.blocks[S]['term']['k'] == 'goto':
+                S = self.blocks[S]['term']['target']
+                hops += 1
+            x = pure_switch(S)
+            if x is None:
+                continue
+            val = None
+            for s in blk['stmts']:
+                if s['k'] == 'assign' and s['place']['l'] == x and not s['place']['p']:
+                    rv = s['rv']
+                    if rv['k'] == 'use' and 'const' in rv['op'] and 'bool' in rv['op']['const']:
+                        val = rv['op']['const']['bool']
+                    else:
+                        val = None
+            if val is None:
+                continue
+            st = self.blocks[S]['term']
+            tgt = None
+            for v, tb in st['targets']:
+                if (v != 0) == val:
+                    tgt = tb
+            if tgt is None:
+                tgt = st['otherwise']
+            self._succ[P] = [(tgt, None)]
 
     def preds(self, bb):
         if self._preds is None:
